@@ -190,6 +190,16 @@ def evalC19CancelledOwner (ins outs : List String) : Verdict :=
   | _, _, _, _ => .bad "C19 cancelledowner"
 
 def evalC19Flight (ins outs : List String) : Verdict :=
+  if kv? ins "kind" == some "lagstore" then
+    (match kvNat? ins "store", kv? outs "arrive", kv? outs "h1", kv? outs "tailmove", kvNat? outs "tail", kv? outs "h2", kv? outs "h3" with
+     | some st, some "ok", some h1, some mv, some tail, some h2, some h3 =>
+       match h1.toNat?, h2.toNat?, h3.toNat? with
+       | some v1, some v2, some v3 =>
+         if v1 != st + 1 then .prop "c19_subjective_head_is_newest" s!"h1={h1} after header {st + 1} was accepted" else
+         if v2 < v1 || v3 < v2 then .prop "c19_monotone" s!"Head() returned {v1}, then {v2}, {v3} after the tail moved to {tail} ({mv}) over a store whose Head() lags" else .ok "lagstore"
+       | _, _, _ => .prop "c19_head_result" s!"h1={h1} h2={h2} h3={h3}"
+     | _, some a, _, _, _, _, _ => .prop "c03_valid_gossip_accepted" s!"arrive={a}"
+     | _, _, _, _, _, _, _ => .bad "lagstore fields") else
   if kv? ins "kind" == some "coldstart" then evalColdStart ins outs else
   if kv? ins "kind" == some "stalepending" then evalStalePending ins outs else
   if kv? ins "kind" == some "cancelledowner" then evalC19CancelledOwner ins outs else
